@@ -27,8 +27,10 @@ package main
 // unique to the invocation).
 
 import (
+	"fmt"
 	"go/token"
 	"go/types"
+	"os"
 	"reflect"
 	"sort"
 	"strings"
@@ -426,8 +428,10 @@ func (w *World) virtOf(v ssa.Value, h *ssa.Function, hc *ssa.Call) ssa.Value {
 			k = replaceKey(k, w.key(p), w.key(hc.Call.Args[i]))
 		}
 	}
-	if k == orig && !strings.HasPrefix(k, "*&global:") && !strings.HasPrefix(k, "&global:") {
-		// nothing of the caller in it: a value private to this invocation of the helper
+	if k == orig && strings.Contains(k, ":"+fname(h)+":") && w.singleSiteCI(h) == nil {
+		// a value computed inside a helper that has several call sites: private to this
+		// invocation (a helper with one call site is part of its caller; a key that does not
+		// mention the helper is already in outer terms)
 		k += "@" + w.key(hc)
 	}
 	return &virtVal{k: k, t: v.Type(), orig: v, site: hc}
@@ -630,8 +634,109 @@ func (w *World) importFacts(facts []Fact) []Fact {
 				facts = append(facts, nf)
 			}
 		}
+		// the result itself, seen through the helper: when the returns compatible with what
+		// is known about the call's results (err == nil, ok == true, ...) all yield the same
+		// value T for this result, the fact holds of T as well (existing == nil, with
+		// existing = #0 of lookup(...) and err == nil, is GetChannelByNumber(...) == nil)
+		if t := w.resultOriginIn(facts, c, ci); t != nil {
+			nf := Fact{Atom{facts[i].Op, t, facts[i].Y}, facts[i].Truth}
+			if facts[i].Op == "==" {
+				if _, isNil, ok := nilFact(facts[i]); ok {
+					nf = Fact{Atom{"==", t, ssa.NewConst(nil, t.Type())}, isNil}
+				} else {
+					continue
+				}
+			}
+			k := w.factStr(nf)
+			if !seen[k] {
+				seen[k] = true
+				facts = append(facts, nf)
+			}
+		}
 	}
 	return facts
+}
+
+// resultOriginIn: the value result #idx of helper call c stands for, given the outcomes of
+// c's results recorded in facts (nil when the compatible returns disagree or there is none).
+func (w *World) resultOriginIn(facts []Fact, c *ssa.Call, idx int) ssa.Value {
+	h := c.Call.StaticCallee()
+	if h == nil || !w.IsMod[h] || len(h.Blocks) == 0 || w.isSynthetic(c) {
+		return nil
+	}
+	if idx < 0 {
+		idx = 0
+	}
+	type oc struct {
+		idx  int
+		want string
+	}
+	var known []oc
+	for _, f := range facts {
+		x, outcome := factOutcome(f)
+		if x == nil {
+			continue
+		}
+		if fc, fi := callOf(w.resolveLoad(x)); fc == c {
+			if fi < 0 {
+				fi = 0
+			}
+			if fi != idx {
+				known = append(known, oc{fi, outcome})
+			}
+		}
+	}
+	if len(known) == 0 {
+		return nil
+	}
+	ai := w.absint()
+	var got ssa.Value
+	gk := ""
+	for _, ret := range returnsOf(h) {
+		if idx >= len(ret.Results) {
+			return nil
+		}
+		compatible := true
+		for _, k := range known {
+			if k.idx >= len(ret.Results) {
+				continue
+			}
+			rv := stripIface(w.resolveLoad(ret.Results[k.idx]))
+			switch k.want {
+			case "nil", "nonnil":
+				if cst, isC := rv.(*ssa.Const); isC {
+					if isNilConst(cst) != (k.want == "nil") {
+						compatible = false
+					}
+				} else if ai.definitelyNonNil(rv) && k.want == "nil" {
+					compatible = false
+				}
+			case "true", "false":
+				if cst, isC := rv.(*ssa.Const); isC && cst.Value != nil && isBoolType(cst.Type()) {
+					if (cst.Value.String() == "true") != (k.want == "true") {
+						compatible = false
+					}
+				}
+			}
+		}
+		if !compatible {
+			continue
+		}
+		tv := w.translate(w.resolveLoad(ret.Results[idx]), h, c)
+		k := w.key(tv)
+		if got == nil {
+			got, gk = tv, k
+		} else if k != gk {
+			return nil
+		}
+	}
+	if got == nil {
+		return nil
+	}
+	if _, isC := got.(*ssa.Const); isC {
+		return nil
+	}
+	return got
 }
 
 // origin resolves a value through helper boundaries: result #i of a call to a module
@@ -874,9 +979,6 @@ func (w *World) originAt(v ssa.Value, at ssa.Instruction) (ssa.Value, []*ssa.Ret
 	if got == nil {
 		return v, nil, nil
 	}
-	if _, isV := got.(*virtVal); isV {
-		return v, nil, nil
-	}
 	return got, rets, c
 }
 
@@ -931,9 +1033,29 @@ type leafCtx struct {
 func (w *World) guardedLeaves(v ssa.Value, at ssa.Instruction) []leafCtx {
 	var out []leafCtx
 	seen := map[*ssa.Phi]bool{}
+	seenAlloc := map[*ssa.Alloc]bool{}
 	var walk func(v ssa.Value, facts []Fact, where string)
 	walk = func(v ssa.Value, facts []Fact, where string) {
 		v = w.resolveLoad(v)
+		// a local kept in memory (a named result read after a defer, a variable assigned in
+		// several places): every store is a way the value can come about, plus the zero value
+		if ld, isLd := v.(*ssa.UnOp); isLd && ld.Op == token.MUL {
+			if al, isAl := ld.X.(*ssa.Alloc); isAl && !w.escapes(al) && !seenAlloc[al] {
+				if ss := w.stores[w.locKey(al)]; len(ss) > 0 {
+					seenAlloc[al] = true
+					for _, st := range ss {
+						if sv, isLd := st.Val.(*ssa.UnOp); isLd && sv.Op == token.MUL && sv.X == ssa.Value(al) {
+							continue // x = x (a named result copied back before the deferred calls run)
+						}
+						walk(st.Val, w.factsAt(st), w.instrPos(st))
+					}
+					if zero := zeroConstOf(ld.Type()); zero != nil {
+						out = append(out, leafCtx{zero, nil, "zero value of " + al.Comment})
+					}
+					return
+				}
+			}
+		}
 		phi, ok := v.(*ssa.Phi)
 		if !ok {
 			out = append(out, leafCtx{v, facts, where})
@@ -1195,4 +1317,194 @@ func (w *World) mapNeverHoldsNil(fld *types.Var) bool {
 		return true
 	}
 	return false
+}
+
+// deepHitCtx is deepHit for predicates that compare values with the root function's own
+// (parameters, locals): the predicate gets a resolver that expresses a helper's value in the
+// root's terms (through every call site on the way), so helpers with several call sites are
+// judged per call.
+func (w *World) deepHitCtx(hit func(in ssa.Instruction, rs func(ssa.Value) ssa.Value) bool) func(ssa.Instruction) bool {
+	var mk func(rs func(ssa.Value) ssa.Value, stack []*ssa.Function) func(ssa.Instruction) bool
+	mk = func(rs func(ssa.Value) ssa.Value, stack []*ssa.Function) func(ssa.Instruction) bool {
+		return func(in ssa.Instruction) bool {
+			if hit(in, rs) {
+				return true
+			}
+			c, ok := in.(*ssa.Call)
+			if !ok {
+				return false
+			}
+			h := c.Call.StaticCallee()
+			if h == nil || !w.IsMod[h] || len(h.Blocks) == 0 || len(stack) > 3 {
+				return false
+			}
+			for _, s := range stack {
+				if s == h {
+					return false
+				}
+			}
+			inner := mk(func(v ssa.Value) ssa.Value { return rs(w.translate(v, h, c)) }, append(append([]*ssa.Function{}, stack...), h))
+			ok2, _ := mustPassBefore(h.Blocks[0], inner, func(*ssa.BasicBlock) bool { return false })
+			return ok2
+		}
+	}
+	return mk(func(v ssa.Value) ssa.Value { return v }, nil)
+}
+
+// topOf: the instruction of root through which `in` is reached (in itself when it belongs to
+// root; the call / go / defer / closure creation that leads into the helper or literal
+// containing it otherwise). nil when in is not part of root's body.
+func (w *World) topOf(in ssa.Instruction, root *ssa.Function) ssa.Instruction {
+	for n := 0; n < 16 && in != nil; n++ {
+		fn := in.Parent()
+		if fn == root {
+			return in
+		}
+		if isBoundWrapper(fn) || fn.Parent() != nil {
+			mcs := w.Closures[fn]
+			if len(mcs) != 1 {
+				return nil
+			}
+			// an immediately invoked literal is entered at its call
+			if site := w.singleSiteCI(fn); site != nil {
+				in = site
+			} else {
+				in = mcs[0]
+			}
+			continue
+		}
+		site := w.singleSiteCI(fn)
+		if site == nil {
+			return nil
+		}
+		in = site
+	}
+	return nil
+}
+
+// zeroConstOf: the zero value of a nil-able or basic type as a constant (nil otherwise).
+func zeroConstOf(t types.Type) ssa.Value {
+	switch t.Underlying().(type) {
+	case *types.Pointer, *types.Interface, *types.Slice, *types.Map, *types.Chan, *types.Signature:
+		return ssa.NewConst(nil, t)
+	}
+	return nil
+}
+
+// tableLookup: v is the result of looking a key up in the table field tbl of some object —
+// nil, or an element of the table selected under elem.Number == key (kind "Number") or
+// AddrEqual(elem.Peer, key) (kind "Peer"). Recognised through any module function whose
+// returned values are all such selections (GetChannelByNumber, GetChannelByAddr, a combined
+// one-pass lookup returning both, ...). key and recv are expressed at the call site.
+func (w *World) tableLookup(v ssa.Value, tbl *types.Var, addrEq *ssa.Function, depth int) (kind string, key, recv ssa.Value, ok bool) {
+	v = stripIface(w.resolveLoad(v))
+	c, idx := callOf(v)
+	if c == nil || depth <= 0 {
+		return "", nil, nil, false
+	}
+	h := c.Call.StaticCallee()
+	if h == nil || !w.IsMod[h] || len(h.Blocks) == 0 || len(h.Params) == 0 {
+		return "", nil, nil, false
+	}
+	if idx < 0 {
+		idx = 0
+	}
+	var kp *ssa.Parameter
+	n := 0
+	for _, r := range returnsOf(h) {
+		if idx >= len(r.Results) {
+			return "", nil, nil, false
+		}
+		for _, lf := range w.guardedLeaves(r.Results[idx], r) {
+			leaf := stripIface(lf.val)
+			if isNilConst(leaf) {
+				continue
+			}
+			// forwarding another lookup
+			if ic, _ := callOf(leaf); ic != nil {
+				k2, key2, recv2, ok2 := w.tableLookup(leaf, tbl, addrEq, depth-1)
+				p2 := rawParamOf(key2, h)
+				if !ok2 || p2 == nil || !w.sameKey(recv2, h.Params[0]) || (kind != "" && kind != k2) || (kp != nil && kp != p2) {
+					return "", nil, nil, false
+				}
+				kind, kp = k2, p2
+				n++
+				continue
+			}
+			// an element of the receiver's table
+			if !derivesFromTable(w, leaf, tbl) {
+				if os.Getenv("TURNCHECK_TLDEBUG") != "" {
+					fmt.Fprintf(os.Stderr, "TL %s#%d: leaf %s (%T) not from table\n", fname(h), idx, w.key(leaf), leaf)
+				}
+				return "", nil, nil, false
+			}
+			lk, lp := "", (*ssa.Parameter)(nil)
+			for _, f := range lf.facts {
+				if f.Op == "==" && f.Truth {
+					for _, pair := range [][2]ssa.Value{{f.X, f.Y}, {f.Y, f.X}} {
+						if w.isFieldLoadOf(pair[0], leaf, "Number") {
+							if p := rawParamOf(pair[1], h); p != nil {
+								lk, lp = "Number", p
+							}
+						}
+					}
+				}
+				if f.Op == "true" && f.Truth {
+					if ec, _ := callOf(f.X); ec != nil && ec.Call.StaticCallee() == addrEq && len(ec.Call.Args) == 2 {
+						for _, pair := range [][2]ssa.Value{{ec.Call.Args[0], ec.Call.Args[1]}, {ec.Call.Args[1], ec.Call.Args[0]}} {
+							if w.isFieldLoadOf(pair[0], leaf, "Peer") {
+								if p := rawParamOf(pair[1], h); p != nil {
+									lk, lp = "Peer", p
+								}
+							}
+						}
+					}
+				}
+			}
+			if lk == "" || (kind != "" && kind != lk) || (kp != nil && kp != lp) {
+				if os.Getenv("TURNCHECK_TLDEBUG") != "" {
+					fmt.Fprintf(os.Stderr, "TL %s#%d: leaf %s selected under no key test (lk=%q kind=%q) facts=%d at %s\n", fname(h), idx, w.key(leaf), lk, kind, len(lf.facts), lf.at)
+					for _, f := range lf.facts {
+						fmt.Fprintf(os.Stderr, "     %s\n", w.factStr(f))
+					}
+				}
+				return "", nil, nil, false
+			}
+			kind, kp = lk, lp
+			n++
+		}
+	}
+	if n == 0 || kp == nil {
+		return "", nil, nil, false
+	}
+	i := paramIndex(kp)
+	if i < 0 || i >= len(c.Call.Args) {
+		return "", nil, nil, false
+	}
+	return kind, c.Call.Args[i], c.Call.Args[0], true
+}
+
+// rawParamOf: v is (a conversion of) a parameter of h — without following the parameter to
+// the argument of a single call site.
+func rawParamOf(v ssa.Value, h *ssa.Function) *ssa.Parameter {
+	for i := 0; i < 6; i++ {
+		switch x := v.(type) {
+		case *ssa.Parameter:
+			if x.Parent() == h {
+				return x
+			}
+			return nil
+		case *ssa.MakeInterface:
+			v = x.X
+		case *ssa.ChangeInterface:
+			v = x.X
+		case *ssa.ChangeType:
+			v = x.X
+		case *ssa.Convert:
+			v = x.X
+		default:
+			return nil
+		}
+	}
+	return nil
 }
